@@ -24,6 +24,8 @@ claimed={
         "interference granularity = API-server calls, one interferer; bounds in the evidence"),
  'C10':("model_checking","re-incarnation histories with a recording cloud provider whose per-IP state machine asserts inside AssignIP/UnAssignIP and inside store delete/update; one clean API/provider fault at a symbolic call index with a retried bind; pods moving between nodes of one subnet",
         "sequential histories; provider idempotent on UnAssign of an unheld IP"),
+ 'C11':("model_checking","symbolic execution with genuinely symbolic strings (cvc5 string theory; unbounded names over the DNS-1123 alphabets): FormatKey injectivity for two arbitrary pods, FormatKey/ParseKey round trip, list (real convert) -> post back (real ReleaseIPs handler) reaches the stored key; paging partition and clamping laws on 64-bit integers (z3)",
+        "owner kinds range over a finite family (cvc5 does not decide str.to_lower on a symbolic kind in time); page size over {1,2,3,10,100,9999} (symbolic x symbolic 64-bit mul/div did not finish in any solver); go-restful request/response replaced by a recording model, strconv.Atoi of a symbolic string modelled as an arbitrary outcome; sorting by IP not covered"),
  'C04':("model_checking","bounded histories of the real plugin (Filter, Bind, unbind, resyncPod, Release) over fakes of the API server: re-incarnation scenario with symbolic policy, event order, lister lag; after every step every live bound pod must still own its IP (solver decides every symbolic branch; counterexamples replayed natively)",
         "bounds: see evidence bounds; sequential histories (event orders, lags) only - no thread interleavings; fakes of API server/listers trusted"),
 }
